@@ -173,6 +173,26 @@ fn ord_time(t: &SolarTime) -> i64 {
   cal().index(y, m, d).map(|i| i as i64 * 86400 + h * 3600 + mi * 60 + s).unwrap_or(i64::MIN)
 }
 
+/// first Monday at least 40 days after 0001-01-01: Monday-based weeks are numbered from here
+fn week_base() -> i64 {
+  let mut b = JDN0 + 40;
+  while weekday(b) != 1 {
+    b += 1;
+  }
+  b
+}
+
+/// the Sunday-based lunar week that starts on civil day `jdn` (a Sunday), built through the lunar month of that day
+fn lunar_week_at(jdn: i64) -> tyme4rs::tyme::lunar::LunarWeek {
+  let c = cal();
+  let l = sd_idx(c, (jdn - JDN0) as usize).get_lunar_day();
+  let mo = l.get_lunar_month();
+  let first = lm_first_jdn(&mo);
+  let offset = weekday(first); // start weekday 0
+  let index = (jdn - first + offset) / 7;
+  tyme4rs::tyme::lunar::LunarWeek::from_ym(mo.get_year(), mo.get_month_with_leap(), index as usize, 0)
+}
+
 fn a_child_limit() -> ChildLimit {
   ChildLimit::from_solar_time(SolarTime::from_ymd_hms(1990, 3, 15, 10, 30, 0), Gender::MAN)
 }
@@ -193,12 +213,14 @@ pub fn linear_registry() -> Vec<Lin> {
     lin!("JulianDay", 1_000_000, 6_000_000, 1, None, |o: i64| JulianDay::from_julian_day(o as f64 + 0.25), |t: &JulianDay| (t.get_day() - 0.25) as i64),
     lin!("LunarYear", -1, 9999, 1, None, |o: i64| LunarYear::from_year(o as isize), |t: &LunarYear| t.get_year() as i64),
     lin!("LunarMonth", 0, nlun - 1, 1, None, |o: i64| { let (y, m) = lunlist().at(o as usize); LunarMonth::from_ym(y as isize, m as isize) }, |t: &LunarMonth| lunlist().pos(t.get_year() as i64, t.get_month_with_leap() as i64).map(|p| p as i64).unwrap_or(i64::MIN)),
-    lin!("LunarDay", y25, hi_day, 1, None, |o: i64| sd_idx(cal(), o as usize).get_lunar_day(), |t: &tyme4rs::tyme::lunar::LunarDay| idx_of(&t.get_solar_day()).map(|i| i as i64).unwrap_or(i64::MIN)),
-    lin!("LunarHour", y25 * 86400, hi_day * 86400 + 86399, 7200, None, |o: i64| time_of(o).get_lunar_hour(), |t: &tyme4rs::tyme::lunar::LunarHour| ord_time(&t.get_solar_time())),
+    lin!("LunarDay", y25, hi_day, 1, None, |o: i64| { let l = sd_idx(cal(), o as usize).get_lunar_day(); let _ = (l.get_solar_day(), l.get_sixty_cycle_day()); l }, |t: &tyme4rs::tyme::lunar::LunarDay| idx_of(&t.get_solar_day()).map(|i| i as i64).unwrap_or(i64::MIN)),
+    lin!("LunarHour", y25 * 86400, hi_day * 86400 + 86399, 7200, None, |o: i64| { let h = time_of(o).get_lunar_hour(); let _ = (h.get_solar_time(), h.get_sixty_cycle_hour()); h }, |t: &tyme4rs::tyme::lunar::LunarHour| ord_time(&t.get_solar_time())),
     lin!("SixtyCycleYear", -1, 9999, 1, None, |o: i64| SixtyCycleYear::from_year(o as isize), |t: &SixtyCycleYear| t.get_year() as i64),
     lin!("SixtyCycleMonth", -12, 119999, 1, None, |o: i64| SixtyCycleMonth::from_index(o.div_euclid(12) as isize, o.rem_euclid(12) as isize), |t: &SixtyCycleMonth| t.get_sixty_cycle_year().get_year() as i64 * 12 + t.get_index_in_year() as i64),
     lin!("SixtyCycleDay", y25, hi_day, 1, None, |o: i64| sd_idx(cal(), o as usize).get_sixty_cycle_day(), |t: &tyme4rs::tyme::sixtycycle::SixtyCycleDay| idx_of(&t.get_solar_day()).map(|i| i as i64).unwrap_or(i64::MIN)),
     lin!("SixtyCycleHour", y25 * 86400, hi_day * 86400 + 86399, 1, None, |o: i64| time_of(o).get_sixty_cycle_hour(), |t: &tyme4rs::tyme::sixtycycle::SixtyCycleHour| ord_time(&t.get_solar_time())),
+    lin!("SolarWeek", 0, (NDAYS as i64 - 120) / 7 - 1, 1, None, |o: i64| sd_idx(cal(), (week_base() + 7 * o - JDN0) as usize).get_solar_week(1), |t: &tyme4rs::tyme::solar::SolarWeek| idx_of(&t.get_first_day()).map(|i| (cal().jdn(i) - week_base()).div_euclid(7)).unwrap_or(i64::MIN)),
+    lin!("LunarWeek", (cal().jdn(cal().year_start[245] as usize) - week_base()) / 7 + 1, (NDAYS as i64 - 500) / 7 - 1, 1, None, |o: i64| lunar_week_at(week_base() + 7 * o - 1), |t: &tyme4rs::tyme::lunar::LunarWeek| idx_of(&t.get_first_day().get_solar_day()).map(|i| (cal().jdn(i) - (week_base() - 1)).div_euclid(7)).unwrap_or(i64::MIN)),
     lin!("DecadeFortune", -1000, 1000, 1, None, |o: i64| DecadeFortune::from_child_limit(a_child_limit(), o as isize), |t: &DecadeFortune| t.get_index() as i64),
     lin!("Fortune", -1000, 1000, 1, None, |o: i64| Fortune::from_child_limit(a_child_limit(), o as isize), |t: &Fortune| t.get_index() as i64),
   ]
@@ -408,7 +430,13 @@ impl C11 {
 
 fn lin_strategy(t: usize, lo: i64, hi: i64, unit: i64, name: &str) -> impl Strategy<Value = Case> {
   // LunarMonth::next walks year by year (each step clones the leap-month table): keep far steps moderate there
-  let span = ((hi - lo) / unit).min(if name == "LunarMonth" { 3_000 } else { i64::MAX });
+  let span = ((hi - lo) / unit).min(match name {
+    "LunarMonth" => 3_000,
+    // week stepping walks month by month (and the lunar one rebuilds every month on the way)
+    "SolarWeek" => 20_000,
+    "LunarWeek" => 600,
+    _ => i64::MAX,
+  });
   let o = prop_oneof![6 => lo..=hi, 2 => lo..=(lo + 40.min(hi - lo)), 2 => (hi - 40.min(hi - lo))..=hi];
   let step = move || prop_oneof![4 => -30i64..=30, 3 => -400i64..=400, 2 => -(span.min(2_000_000))..=span.min(2_000_000), 1 => Just(0i64)];
   (o, step(), step()).prop_map(move |(o, a, b)| {
@@ -429,7 +457,7 @@ impl Prop for C11 {
   }
   fn meta(&self, _env: &Env) -> Meta {
     Meta {
-      rule: "Registry: 42 cyclic types (stems, branches, sixty-cycle, every named culture::*, star::*, ren::minor, foetus, Peng Zu, phenology, nine/dog/plum-rain, lunar season) and 18 linear units (SolarYear/HalfYear/Season/Month/Day/Time, SolarTerm, JulianDay, LunarYear/Month/Day/Hour, SixtyCycleYear/Month/Day/Hour, DecadeFortune, Fortune; weeks, festivals and holidays are stepped by C14/C20). Cyclic: `cyc` every element x n in {0,+-1,+-size,+-(size+-1),+-10^6} plus proptest n up to +-2^40: next(n).index == (i+n) mod size, name == the public name list; `cyc_laws` proptest (element, a, b): next(a).next(b) == next(a+b), next(a).next(-a) == x, next(0) == x; `wrap` from_index(k) for k in -3size..3size and +-2^62 wraps; `name` every listed name -> first index carrying it, and generated non-names (empty, name+suffix, names of other cycles, proptest unicode) are refused. Linear `lin`: each type has an independent ordinal (y, y*12+m-1, CAL index, seconds, lunation-list position, y*24+i, ...); proptest (ordinal o, a, b) clipped into the type's accepted range by construction, 40% of o within 40 units of a range end: next(0)==x, ord(next(n)) == ord+n*unit, next(a).next(b) == next(a+b) (own == and ordinal), next(a).next(-a) == x. Non-trivial: |n| >= size or negative; a and b of opposite sign, near a range edge, |a| > 400; duplicate and unknown names.".into(),
+      rule: "Registry: 42 cyclic types (stems, branches, sixty-cycle, every named culture::*, star::*, ren::minor, foetus, Peng Zu, phenology, nine/dog/plum-rain, lunar season) and 20 linear units (SolarYear/HalfYear/Season/Month/Week/Day/Time, SolarTerm, JulianDay, LunarYear/Month/Week/Day/Hour, SixtyCycleYear/Month/Day/Hour, DecadeFortune, Fortune; festivals and holidays are stepped by C20, weeks also by C14). Cyclic: `cyc` every element x n in {0,+-1,+-size,+-(size+-1),+-10^6} plus proptest n up to +-2^40: next(n).index == (i+n) mod size, name == the public name list; `cyc_laws` proptest (element, a, b): next(a).next(b) == next(a+b), next(a).next(-a) == x, next(0) == x; `wrap` from_index(k) for k in -3size..3size and +-2^62 wraps; `name` every listed name -> first index carrying it, and generated non-names (empty, name+suffix, names of other cycles, proptest unicode) are refused. Linear `lin`: each type has an independent ordinal (y, y*12+m-1, CAL index, seconds, lunation-list position, y*24+i, ...); proptest (ordinal o, a, b) clipped into the type's accepted range by construction, 40% of o within 40 units of a range end: next(0)==x, ord(next(n)) == ord+n*unit, next(a).next(b) == next(a+b) (own == and ordinal), next(a).next(-a) == x. Non-trivial: |n| >= size or negative; a and b of opposite sign, near a range edge, |a| > 400; duplicate and unknown names.".into(),
       assumptions: vec![
         "Range of a linear type = what its own constructor accepts (SolarTerm restricted to years 1..9999; LunarDay/LunarHour/SixtyCycleDay/Hour start at AD 25 to stay clear of the AD 24 hole, which C02 records)".into(),
         "Equality is the type's own == plus the ordinal (several == compare names only)".into(),
@@ -438,7 +466,7 @@ impl Prop for C11 {
     }
   }
   fn plan(&self, _env: &Env) -> Vec<TaskSpec> {
-    vec![task("cyclic", 6), task("linear", 18)]
+    vec![task("cyclic", 6), task("linear", 20)]
   }
   fn run(&self, env: &Env, t: &str, shard: usize, nshards: usize, out: &mut Out) {
     let ev = |e: &Env, o: &mut Out, s: &str, cs: &Case| self.eval(e, o, s, cs);
@@ -480,7 +508,7 @@ impl Prop for C11 {
           if ti % nshards != shard {
             continue;
           }
-          let heavy = matches!(li.name, "SixtyCycleDay" | "SixtyCycleHour" | "LunarHour" | "SolarTerm");
+          let heavy = matches!(li.name, "SixtyCycleDay" | "SixtyCycleHour" | "LunarHour" | "SolarTerm" | "LunarWeek");
           let per: u32 = env.tier.pick(if heavy { 2_500 } else { 12_000 }, if heavy { 60_000 } else { 400_000 });
           // deterministic edge cases
           for o in [li.lo, li.lo + li.unit, li.hi, li.hi - li.unit] {
